@@ -250,12 +250,36 @@ func applyAlias(node *CandidateNode, alias *CandidateNode, aliasIndex int, newCo
 		keyNode := alias.Content[index]
 		log.Debugf("applying alias key %v", keyNode.Value)
 		valueNode := alias.Content[index+1]
+		if keyNode.Value == "<<" && keyNode.Tag == "!!merge" {
+			// the merged map has merge keys of its own: merge what they refer to, not an entry called "<<"
+			if err := applyNestedMerge(node, valueNode, aliasIndex, newContent); err != nil {
+				return err
+			}
+			continue
+		}
 		err := overrideEntry(node, keyNode, valueNode, aliasIndex, newContent)
 		if err != nil {
 			return err
 		}
 	}
 	return nil
+}
+
+func applyNestedMerge(node *CandidateNode, mergeValue *CandidateNode, aliasIndex int, newContent Context) error {
+	switch mergeValue.Kind {
+	case AliasNode:
+		return applyAlias(node, mergeValue.Alias, aliasIndex, newContent)
+	case MappingNode:
+		return applyAlias(node, mergeValue, aliasIndex, newContent)
+	case SequenceNode:
+		for index := len(mergeValue.Content) - 1; index >= 0; index = index - 1 {
+			if err := applyNestedMerge(node, mergeValue.Content[index], aliasIndex, newContent); err != nil {
+				return err
+			}
+		}
+		return nil
+	}
+	return fmt.Errorf("merge anchor only supports maps, got %v instead", mergeValue.Tag)
 }
 
 func overrideEntry(node *CandidateNode, key *CandidateNode, value *CandidateNode, startIndex int, newContent Context) error {
